@@ -43,6 +43,9 @@ def run(chk):
         "hand-written model coq/Model/Cost.v (tied bit for bit by the correspondence stream, all entry points and EdgeTraversal)",
         "translator/tr_cost.py (MIN_COST, comparison operators and substitutes of the two clamps, regenerated from the source on every "
         "run; fails closed; its output is executed in binary64 against the real functions by the stream)",
+        "translator/tr_costrates.py + translator/rsparse.py (the variants of VehicleCostRate / NetworkCostRate / CostAggregation and the "
+        "arms of map_value, traversal_cost, access_cost, agg, agg_iter compiled to coq/Gen/CostRates.v on every run; fails closed; "
+        "coq/Props/GenCostRates.v proves Model/Cost.v equal to them for all inputs, so a misreading shows up in the bit-exact stream)",
         "reading of the model in exact rationals: rounding, overflow, NaN are outside the theorems (exercised bit-exactly by the stream)",
         "HashMap lookups read as association lists with unique keys; AccessModel / TraversalModel are arbitrary (the harness uses models "
         "that set the state vector to the case's vectors)",
@@ -65,9 +68,18 @@ def run(chk):
                       tres.get("msg"), "model/unit/{cost,internal_float}.rs have the shape the translator knows (fail closed)",
                       detail="coq/Gen/CostConsts.v could not be regenerated; the previous constants (if any) are used below",
                       found=False, key="translator")
+    # ---- tie 1b: regenerate coq/Gen/CostRates.v (rate arms, aggregation folds); Props/GenCostRates.v proves the model equal to it
+    rres = vf.run_translators(which=["costrates"]).get("costrates", {"ok": False, "msg": "translator module tr_costrates.py missing"})
+    chk.coverage["translator"]["costrates"] = {k: rres.get(k) for k in ("ok", "msg", "digest", "files", "changed")}
+    if not rres.get("ok"):
+        chk.violation("broken-correspondence", "translator", {"translator": "tr_costrates", "error": rres.get("msg")},
+                      rres.get("msg"), "model/cost/{vehicle/vehicle_cost_rate,network/network_cost_rate,cost_aggregation}.rs have the "
+                      "shape the translator knows (fail closed)",
+                      detail="coq/Gen/CostRates.v could not be regenerated; the previous definitions (if any) are used below",
+                      found=False, key="translator-costrates")
 
-    # ---- proofs
-    chk.proofs(extra_targets=["Model/CostRun.vo"])
+    # ---- proofs (Props/GenCostRates.v: the hand-written model agrees with the regenerated definitions, for all inputs)
+    chk.proofs(extra_targets=["Model/CostRun.vo"], extra_props=["Props/GenCostRates.v"])
 
     binp = vf.build_harness("c07")
     quick = chk.tier == "quick"
